@@ -53,6 +53,10 @@ pub mod hist_cache;
 #[path = "/verif/harness/hist_search.rs"]
 pub mod hist_search;
 
+#[cfg(all(not(kani), test))]
+#[path = "/verif/harness/hist_mcp.rs"]
+pub mod hist_mcp;
+
 #[path = "/verif/harness/c05.rs"]
 pub mod c05;
 
@@ -105,6 +109,10 @@ mod replay_entry {
         }
         if module == "console" {
             super::hist_console::replay_file();
+            return;
+        }
+        if module == "mcp" {
+            super::hist_mcp::replay_file();
             return;
         }
         if module == "search" {
